@@ -282,7 +282,13 @@ class Check(PropertyCheck):
                   "lines rewritten by host, port and content setters) are outside the model and masked in the comparison. "
                   "That set_state(get_state()) restores a message whatever in-place edits happened in between is proved on C40's "
                   "transcription of MessageData.get_state / Message.from_state (put_rollback_object_level); for the flow-level fields "
-                  "(marked, comment, error, connections, backup) it is checked on every case by the before/after comparison only. DNS flows are not exercised. LENIENT BRANCHES of the oracle: a refusal may carry any "
+                  "(marked, comment, error, connections, backup) it is checked on every case by the before/after comparison only. DNS flows are not exercised. What put_all_or_nothing establishes is the DISPATCH - when the "
+                  "handler commits or rolls back, the order of effects, the class of exception, the backup afterwards, never a 500; the "
+                  "roll-back itself is `Flow.restore`, which returns the old value (set_state(get_state()) = identity is the assumption "
+                  "just described). putF_refused_unchanged is true by the shape of putF; its content lies in putF_status + "
+                  "ops_ids_eq_effects and in the tie. 'Invalid host' is the one clause of the statement without a conversion theorem "
+                  "of its own: it is covered generically by failing_key_leaves_flow_unchanged (a setter that raises). "
+                  "LENIENT BRANCHES of the oracle: a refusal may carry any "
                   "non-200 status; host validity is left to the implementation (the statement's 'invalid host' is whatever the setter "
                   "rejects); in the field tie Host / Content-Length / Content-Type header lines are masked (library side effects).")
     technique = "Lean 4 proof (transaction model, induction over the step list) + differential sessions against the real tornado handler"
